@@ -2,6 +2,8 @@
     Statements pinned here; proofs in Egg/Subsume.v. *)
 From Coq Require Import List ZArith Bool.
 Import ListNotations.
+From Coq Require Import NArith.
+Require Import Verif.Base.Res Verif.Egg.SchemaPrelude Verif.gen.SchemaFns Verif.Egg.Callback.
 Require Import Verif.gen.BridgeFns Verif.gen.SourceFacts Verif.Egg.Model Verif.Egg.Rules Verif.Egg.Merge Verif.Egg.Subsume Verif.Egg.Guards.
 
 (** the flag-combination translated from egglog-bridge (combine_subsumed = max) is OR: merging a
@@ -86,3 +88,49 @@ Proof.
           (conj query_flag_reaches_backend (conj extraction_scans_guarded extraction_scans_count))).
 Qed.
 Print Assumptions c13_source_filters_subsumed.
+
+(* ================================================================================================
+   The subsume column through the merge callback AS WRITTEN NOW (gen/SchemaFns.v is regenerated from
+   egglog-bridge/src/lib.rs on every run) *)
+
+(** the regenerated flag combination over the regenerated constants is OR *)
+Theorem c13_combineN_is_or : forall a b, combine_subsumedN (flagN a) (flagN b) = flagN (orb a b).
+Proof. exact combine_subsumedN_or. Qed.
+Print Assumptions c13_combineN_is_or.
+
+(** whatever the merge function does to the value, for every arity: after the callback of a table
+    with subsumption the row the table holds (the produced row if "changed", the current row
+    otherwise) carries the COMBINED flag of the current and the incoming row - a flag change alone
+    makes the callback report "changed" *)
+Theorem c13_callback_flag_sticky : forall sm run cur new st v st',
+  (1 <= sm_func_cols sm)%N -> sm_subsume sm = true ->
+  length cur = N.to_nat (SchemaMath_table_columns sm) ->
+  length new = N.to_nat (SchemaMath_table_columns sm) ->
+  run st (nth (rv sm) cur 0%N) (nth (rv sm) new 0%N) (nth (tsc sm) new 0%N) = Ok (v, st') ->
+  exists changed out, MergeFn_to_callback sm run st cur new [] = Ok (changed, st', out)
+    /\ nth (sc sm) (if changed then out else cur) 0%N
+       = combine_subsumedN (nth (sc sm) cur 0%N) (nth (sc sm) new 0%N).
+Proof. exact callback_flag_sticky. Qed.
+Print Assumptions c13_callback_flag_sticky.
+
+(** the subsume column is a column of its own: distinct from keys, value and timestamp, inside the
+    row (all arities) *)
+Theorem c13_subsume_column : forall sm, (1 <= sm_func_cols sm)%N -> sm_subsume sm = true ->
+  exists c, SchemaMath_subsume_col sm = Ok c
+    /\ (SchemaMath_num_keys sm <= SchemaMath_ret_val_col sm /\ SchemaMath_ret_val_col sm < SchemaMath_ts_col sm
+        /\ SchemaMath_ts_col sm < c /\ c < SchemaMath_table_columns sm)%N.
+Proof.
+  intros sm W S. destruct (schema_layout sm W) as (_ & H1 & H2 & _ & H4). rewrite S in H4.
+  destruct H4 as (c & Hc & H5 & H6 & _). exists c. auto.
+Qed.
+Print Assumptions c13_subsume_column.
+
+(** non-vacuity: a subsumed current row meets a non-subsumed incoming row under the Old merge:
+    nothing changes, nothing is written, the stored row stays subsumed; in the other order the
+    flag change alone produces a row *)
+Example c13_callback_example :
+  MergeFn_to_callback (mkSchemaMath true 2) (ResolvedMergeFn_run ex_env RMF_Old) [] [5; 10; 3; 1]%N [5; 4; 8; 0]%N []
+  = Ok (false, [], [])
+  /\ MergeFn_to_callback (mkSchemaMath true 2) (ResolvedMergeFn_run ex_env RMF_Old) [] [5; 10; 3; 0]%N [5; 4; 8; 1]%N []
+  = Ok (true, [], [5; 10; 8; 1]%N).
+Proof. split; vm_compute; reflexivity. Qed.
